@@ -980,6 +980,9 @@ def scenarios_construct(seed, n):
               'cls': name, 'stream': path, 'spell': 0}
         if path == 'fromdict':
             # the public unchecked constructor from a (possibly partial) dict of field values, with or without an explicit record
+            # (no validation hook here: on an instance that lacks a field a hook reads the CLASS-level default through getattr,
+            # which the model's hook interface -- the instance's own fields -- does not show)
+            d['hook'] = None
             try:
                 sc.update(op='fromdict', args=[], kwargs=[[k, ENC.enc(v)] for k, v in vals.items()])
                 if r.random() < 0.5:
@@ -1326,6 +1329,42 @@ def scenarios_dictview_names(seed, n):
         out.append({'id': f'dv{seed}:{i}', 'decl': {'enums': [], 'subs': [], 'classes': [d]}, 'spell': 0, 'stream': 'dictview-names', 'tys': [],
                     'op': 'dictview', 'cls': cname, 'obj': obj, 'set_only': r.random() < 0.5,
                     'rename': r.choice(['camel', 'scream', 'pascal', 'kebab', 'snake', None])})
+    return out
+
+
+def scenarios_c3(seed, n):
+    """C17 (MRO order): random class hierarchies (up to 8 classes, 0-3 bases each, bases in random order -- many are inconsistent):
+    the model's C3 linearisation against Python's own `__mro__` / its refusal to create the class"""
+    g = random.Random(seed)
+    out = []
+    for i in range(n):
+        r = random.Random(g.randrange(1 << 62))
+        names = [f'K{j}' for j in range(r.randint(2, 8))]
+        classes = []
+        for j, nm in enumerate(names):
+            k = min(j, r.choice([0, 1, 1, 2, 2, 3]))
+            bases = r.sample(names[:j], k)
+            if r.random() < 0.15 and 'object' not in bases:
+                bases = bases + ['object'] if r.random() < 0.7 else ['object'] + bases
+            classes.append([nm, bases])
+        out.append({'id': f'c3{seed}:{i}', 'op': 'c3h', 'classes': classes, 'stream': 'c3'})
+    return out
+
+
+def scenarios_unionnorm(seed, n):
+    """C11 ("regardless of how the union is nested, flattened or wrapped in Optional"): `typing`'s own normalisation of
+    Union[...] (nested unions flattened in place, later duplicates dropped, Optional = a trailing None) against the model's"""
+    g = random.Random(seed)
+    names = ['int', 'str', 'float', 'bool', 'bytes', 'NoneType', 'complex']
+    out = []
+    for i in range(n):
+        r = random.Random(g.randrange(1 << 62))
+        def mem(depth):
+            if depth < 3 and r.random() < 0.3:
+                return [mem(depth + 1) for _ in range(r.randint(1, 3))]
+            return r.choice(names)
+        members = [mem(0) for _ in range(r.randint(1, 5))]
+        out.append({'id': f'un{seed}:{i}', 'op': 'unionnorm', 'members': members, 'optional': r.random() < 0.3, 'stream': 'unionnorm'})
     return out
 
 
